@@ -1,6 +1,8 @@
 package main
 
 import (
+	"math"
+	"strconv"
 	"strings"
 
 	"golang.org/x/tools/go/ssa"
@@ -163,6 +165,81 @@ func (x *Exec) nativeStrings(fn *ssa.Function, args []Val) (Val, bool) {
 		if l, ok := concStrs(args[0]); ok && isS[1] {
 			return cstr(strings.Join(l, s[1])), true
 		}
+	}
+	return nil, false
+}
+
+func fv(f float64) Val {
+	return OpaqueV{Kind: "float", Key: "f:" + strconv.FormatFloat(f, 'g', -1, 64), F: &f}
+}
+
+func concF(v Val) (float64, bool) {
+	o, ok := v.(OpaqueV)
+	if !ok || o.F == nil {
+		return 0, false
+	}
+	return *o.F, true
+}
+
+// nativeMath: package math on concrete floats (its SSA bottoms out in assembly)
+func (x *Exec) nativeMath(fn *ssa.Function, args []Val) (Val, bool) {
+	if fn.Pkg == nil || fn.Pkg.Pkg.Path() != "math" || fn.Signature.Recv() != nil {
+		return nil, false
+	}
+	f := make([]float64, len(args))
+	allF := true
+	for i, a := range args {
+		var ok bool
+		f[i], ok = concF(a)
+		if !ok {
+			allF = false
+		}
+	}
+	switch fn.Name() {
+	case "Inf":
+		if n, ok := concI(args[0]); ok {
+			return fv(math.Inf(n)), true
+		}
+	case "NaN":
+		return fv(math.NaN()), true
+	case "IsInf":
+		if v, ok := concF(args[0]); ok {
+			if n, ok := concI(args[1]); ok {
+				return cbool(math.IsInf(v, n)), true
+			}
+		}
+	}
+	if !allF || len(args) == 0 {
+		return nil, false
+	}
+	switch fn.Name() {
+	case "Trunc":
+		return fv(math.Trunc(f[0])), true
+	case "Floor":
+		return fv(math.Floor(f[0])), true
+	case "Ceil":
+		return fv(math.Ceil(f[0])), true
+	case "Round":
+		return fv(math.Round(f[0])), true
+	case "Abs":
+		return fv(math.Abs(f[0])), true
+	case "Sqrt":
+		return fv(math.Sqrt(f[0])), true
+	case "IsNaN":
+		return cbool(math.IsNaN(f[0])), true
+	case "Mod":
+		return fv(math.Mod(f[0], f[1])), true
+	case "Pow":
+		return fv(math.Pow(f[0], f[1])), true
+	case "Max":
+		return fv(math.Max(f[0], f[1])), true
+	case "Min":
+		return fv(math.Min(f[0], f[1])), true
+	case "Float64bits":
+		return cbv(64, math.Float64bits(f[0])), true
+	case "Modf":
+		a, b := math.Modf(f[0])
+		return TupleV{fv(a), fv(b)}, true
 	}
 	return nil, false
 }
